@@ -22,7 +22,7 @@ if REPO not in sys.path:
 # never import a psec installed elsewhere
 for _m in [m for m in sys.modules if m == "psec" or m.startswith("psec.")]:
     del sys.modules[_m]
-assert sys.byteorder == "little", "the model of tools.xor assumes a little-endian host"
+assert sys.byteorder == "little" or os.environ.get("VERIF_PRETEND_BIG_ENDIAN"), "the model of tools.xor assumes a little-endian host"
 
 import psec  # noqa: E402
 from psec import aes, cvv, des, mac, pin, pinblock, tools, tr31  # noqa: E402
@@ -250,8 +250,15 @@ def impl_run_ops(kbpk, ops):
     the real os.urandom is used).  Returns (header text, [outcome text])."""
     kb = tr31.KeyBlock(kbpk)
     outs = []
+    cur = kbpk
     for op in ops:
         k = op[0]
+        if kb.kbpk != cur or type(kb.kbpk) is not type(cur):
+            # no operation may rewrite the caller's key-block protection key (the model's st_kbpk only changes by K=)
+            outs.append("err:KBPK-ATTRIBUTE-MODIFIED:" + show(bytes(kb.kbpk)))
+            return show_header(kb.header), outs
+        if k == "K":
+            cur = op[1]
         try:
             if k == "L":
                 outs.append("nat:%d" % kb.header.load(op[1]))
